@@ -177,9 +177,11 @@ def h_generated_system(eng, form):
 UNITS4 = ["ua", "ub", "uc", "ud"]
 
 
-def h_membership(eng, edit):
+def h_membership(eng, edit, pre="all"):
     """3 groups G0..G2 ('using' edges i -> j for i < j) and a system over 4 units; every
-    membership and edge is a symbolic boolean; one edit, then the closure again"""
+    membership and edge is a symbolic boolean; one edit, then the closure again.  ``pre`` says
+    which answers were read (and so memoised) before the edit: invalidation must not depend on
+    what happened to be computed earlier."""
     lines = ["ua = [da]", "ub = [db]", "uc = [dc]", "ud = [dd]", "@system S", "@end"]
     ureg = pint.UnitRegistry(lines, non_int_type=eng.ntype)
     G = [ureg.Group(f"G{i}") for i in range(3)]
@@ -213,21 +215,26 @@ def h_membership(eng, edit):
                 out |= closure(j, seen | {i})
         return out
 
-    def check(tag):
-        for i in range(3):
-            eng.prove(set(G[i].members) == closure(i), f"{tag}:group-members-G{i}")
+    def check(tag, what="all"):
         want = set()
         for i in sys_groups:
             want |= closure(i)
-        eng.prove(set(S.members) == want, f"{tag}:system-members")
+        if what in ("all", "G0", "G1"):
+            for i in range(3):
+                if what == "all" or what == f"G{i}":
+                    eng.prove(set(G[i].members) == closure(i), f"{tag}:group-members-G{i}")
+        if what in ("all", "S"):
+            eng.prove(set(S.members) == want, f"{tag}:system-members")
         # restricted compatible units = members of the group/system in that dimension
-        for u in UNITS4:
-            got = {str(x) for x in ureg.get_compatible_units(u, "G0")}
-            eng.prove(got == ({u} & closure(0)), f"{tag}:compatible-in-group:{u}")
-            got = {str(x) for x in ureg.get_compatible_units(u, "S")}
-            eng.prove(got == ({u} & want), f"{tag}:compatible-in-system:{u}")
+        if what in ("all", "compat"):
+            for u in UNITS4:
+                got = {str(x) for x in ureg.get_compatible_units(u, "G0")}
+                eng.prove(got == ({u} & closure(0)), f"{tag}:compatible-in-group:{u}")
+                got = {str(x) for x in ureg.get_compatible_units(u, "S")}
+                eng.prove(got == ({u} & want), f"{tag}:compatible-in-system:{u}")
 
-    check("before")  # also forces the memoised members
+    if pre != "none":
+        check("before", pre)  # also forces the memoised members
     kind, a, b = edit
     if kind == "add_units":
         G[a].add_units(b)
@@ -325,7 +332,8 @@ def cases(tier, seed):
         out.append(Case("H14.b", form, M, "h_generated_system", {"form": form}, opts={"hash_mode": "mixed"}, validate=1))
     edits = [("add_units", 0, "ud"), ("add_units", 2, "ua"), ("add_units", 1, "ua"), ("remove_units", 1, "ub"), ("remove_units", 2, "uc"), ("add_groups", 0, 2), ("add_groups", 2, 0), ("add_groups", 1, 0), ("remove_groups", 0, 1), ("remove_groups", 1, 2), ("system_add", 2, None), ("system_remove", 0, None)]
     for e in edits:
-        out.append(Case("H14.c", f"{e[0]}:{e[1]}:{e[2]}", M, "h_membership", {"edit": list(e)}, opts={"max_paths": 5000}, validate=2, weight=40.0))
+        for pre in ("all", "G0", "S", "compat") + (("G1", "none") if big else ()):
+            out.append(Case("H14.c", f"{e[0]}:{e[1]}:{e[2]}:pre={pre}", M, "h_membership", {"edit": list(e), "pre": pre}, opts={"max_paths": 5000}, validate=2 if pre == "all" else 0, weight=40.0))
     out.append(Case("H14.c-default", "members", M, "h_default_membership", {}, kind="conc"))
     out.append(Case("H14.d", "sys-attr", M, "h_sys_attr", {}, kind="conc"))
     return out
